@@ -68,7 +68,8 @@ pub fn serialize_root(
     xml += "<?xml version=\"1.0\" encoding=\"UTF-8\"?>\n";
     xml += "<e57Root type=\"Structure\" ";
     for ext in extensions {
-        xml += &format!("xmlns:{}=\"{}\" ", ext.namespace, ext.url);
+        let url = xml::escape_attribute(&ext.url);
+        xml += &format!("xmlns:{}=\"{url}\" ", ext.namespace);
     }
     xml += "xmlns=\"http://www.astm.org/COMMIT/E57/2010-e57-v1.0\">\n";
     xml += "<formatName type=\"String\"><![CDATA[ASTM E57 3D Imaging Data File]]></formatName>\n";
